@@ -397,18 +397,25 @@ def rdm_case(draw):
     else:
         kind = draw(gen.value_kind())
     data = draw(gen.matrix(len(des['obs']), n_vox, kind=kind))
+    data_dtype = 'float'
+    if method != 'correlation' and draw(st.integers(0, 3)) == 0:
+        # integer-typed data matrices (e.g. counts) are data matrices too
+        data_dtype = 'int'
+        data = draw(st.lists(st.lists(st.integers(0, 9), min_size=n_vox, max_size=n_vox),
+                             min_size=len(des['obs']), max_size=len(des['obs'])))
     n_centers = draw(st.integers(1, 6))
     kmin = 3 if method == 'correlation' else 1
     neighbors = [draw(st.lists(st.integers(0, n_vox - 1), min_size=kmin, max_size=min(n_vox, 7),
                                unique=True)) for _ in range(n_centers)]
     centers = draw(st.lists(st.integers(0, 5000), min_size=n_centers, max_size=n_centers,
                             unique=True))
-    return dict(method=method, design=des, data=data, centers=centers, neighbors=neighbors,
+    return dict(method=method, design=des, data=data, data_dtype=data_dtype, centers=centers,
+                neighbors=neighbors,
                 events_form=draw(gen.container), nb_form=draw(st.sampled_from(['list', 'array'])))
 
 
 def check_rdms(case):
-    data = np.array(case['data'], dtype=float)
+    data = np.array(case['data'], dtype=int if case.get('data_dtype') == 'int' else float)
     events_plain = list(case['design']['obs'])
     events_arg = gen.as_desc(events_plain, case['events_form'])
     centers = np.array(case['centers'])
@@ -424,6 +431,7 @@ def check_rdms(case):
 def classify_rdms(case):
     des = case['design']
     labels = ['method:' + case['method'], 'labels:' + des['kind'],
+              'data:' + case.get('data_dtype', 'float'),
               'events:' + case['events_form'], 'n_centers=%d' % len(case['centers']),
               'sorted-labels' if gen.is_sorted_labels(ref.first_appearance(des['obs']))
               else 'unsorted-labels', 'reps' if max(des['reps']) > 1 else 'no-reps']
@@ -454,6 +462,11 @@ def chunked_case(draw):
     n_vox = draw(st.integers(6, 12))
     kind = 'pos' if method == 'poisson' else draw(st.sampled_from(['grid', 'float']))
     data = draw(gen.matrix(len(des['obs']), n_vox, kind=kind))
+    data_dtype = 'float'
+    if method != 'correlation' and draw(st.integers(0, 2)) == 0:
+        data_dtype = 'int'
+        data = draw(st.lists(st.lists(st.integers(0, 9), min_size=n_vox, max_size=n_vox),
+                             min_size=len(des['obs']), max_size=len(des['obs'])))
     n_centers = draw(st.one_of(
         st.sampled_from([1001, 1002, 1099, 1100, 1101, 1234, 2001, 1001, 1000, 999]),
         st.integers(1001, 1400)))
@@ -462,14 +475,14 @@ def chunked_case(draw):
     # on the unrepaired tree, see fixes/C19-merge-descriptors-unequal-shapes.diff); here all
     # crossnobis searchlights have one size so that the chunk logic is what gets exercised
     kspan = 1 if cv else draw(st.integers(1, n_vox - kmin + 1))
-    return dict(method=method, design=des, data=data, n_centers=n_centers,
+    return dict(method=method, design=des, data=data, data_dtype=data_dtype, n_centers=n_centers,
                 perm=draw(gen.permutation(n_vox)), step=draw(st.integers(0, n_vox)),
                 kmin=kmin, kspan=kspan, kmul=draw(st.integers(1, 7)),
                 mult=draw(st.integers(1, 104728)), off=draw(st.integers(0, 104728)))
 
 
 def check_chunked(case):
-    data = np.array(case['data'], dtype=float)
+    data = np.array(case['data'], dtype=int if case.get('data_dtype') == 'int' else float)
     events_plain = list(case['design']['obs'])
     events_arg = np.array(events_plain)
     centers, neighbors = expand_chunked(case)
@@ -483,6 +496,7 @@ def check_chunked(case):
 def classify_chunked(case):
     n = case['n_centers']
     labels = ['method:' + case['method'], 'chunked' if n > 1000 else 'not-chunked',
+              'data:' + case.get('data_dtype', 'float'),
               'n%100==0' if n % 100 == 0 else 'n%100!=0', 'labels:' + case['design']['kind']]
     return labels, n > 1000
 
